@@ -28,7 +28,7 @@ type harnessCfg struct {
 }
 
 func defaultCfg() harnessCfg {
-	return harnessCfg{maxSteps: 2000000, maxDepth: 200, maxDecisions: 5000, maxConcretize: 64, maxPaths: 200000, solver: "z3", timeoutMs: 30000, wallLimit: 10 * time.Minute, maxSchedPoints: 60, forkIndexBelow: 8}
+	return harnessCfg{maxSteps: 2000000, maxDepth: 200, maxDecisions: 5000, maxConcretize: 64, maxPaths: 200000, solver: "z3new", timeoutMs: 30000, wallLimit: 10 * time.Minute, maxSchedPoints: 60, forkIndexBelow: 8}
 }
 
 type runStats struct {
@@ -318,7 +318,11 @@ func (in *Interp) assert(c value, msg string) {
 		if in.concrete {
 			panic("symbolic assert in concrete mode")
 		}
+		t0 := time.Now()
 		res, model := in.solver.check(in.pc, mkNot(c), true)
+		if d := time.Since(t0); d > 2*time.Second && os.Getenv("GOSYM_SLOW") != "" {
+			fmt.Fprintf(os.Stderr, "SLOW %.1fs %v assertion %q\n", d.Seconds(), res, msg)
+		}
 		switch res {
 		case rUnsat:
 			in.stats.discharged++
